@@ -14,6 +14,7 @@
 #include <sys/wait.h>
 #include <fcntl.h>
 #include <memory>
+#include <set>
 
 using namespace asim;
 
@@ -221,6 +222,22 @@ struct CliWorld : World {
         return Bytes(g_os->files[i].data, g_os->files[i].data + g_os->files[i].size);
     }
     static bool vfs_exists(const std::string &n) { return vfs_find(n.c_str()) >= 0; }
+    static std::set<std::string> vfs_names()
+    {
+        std::set<std::string> v;
+        for (int i = 0; i < VFS_MAXFILES; ++i) if (g_os->files[i].used) v.insert(g_os->files[i].name);
+        return v;
+    }
+    // Where the output goes when no -o is given is the tool's choice (today: name + ".ascon" / name without it /
+    // name + ".decrypted").  If the expected name is absent after a run, the one file that newly appeared is the output.
+    static std::string discover_output(const std::set<std::string> &before, const std::string &expected)
+    {
+        if (vfs_exists(expected)) return expected;
+        std::string found;
+        int n = 0;
+        for (auto &nm : vfs_names()) if (!before.count(nm)) { found = nm; ++n; }
+        return n == 1 ? found : expected;
+    }
 
     static std::string child_err_path()
     {
@@ -415,8 +432,10 @@ struct CliWorld : World {
         if (use_stdio) { args.push_back("-"); stdin_file = vfs_find(in.c_str()); }
         else args.push_back(in);
         if (!use_stdio) { vfs_remove(out.c_str()); c.meta.erase(out); }
+        std::set<std::string> names_before = vfs_names();
         Result r = run_tool(c, 0, args, &op, 5, stdin_file, (int)op.arg(4));
         c.run->fold_u64((uint64_t)r.exit_code);
+        if (!use_stdio && !with_o) { std::string o2 = discover_output(names_before, out); if (o2 != out) { c.run->probe("enc.output_under_another_name"); out = o2; } }
         bool out_exists = use_stdio ? false : vfs_exists(out);
         Bytes produced = use_stdio ? Bytes(r.out.begin(), r.out.end()) : vfs_get(out, &ex);
         std::string site = std::string("asconcrypt.encrypt") + (use_stdio ? ".stdio" : "");
@@ -492,8 +511,10 @@ struct CliWorld : World {
         Bytes saved_out;
         bool had_out = false;
         if (!use_stdio) { saved_out = vfs_get(out, &had_out); vfs_remove(out.c_str()); }
+        std::set<std::string> names_before = vfs_names();
         Result r = run_tool(c, 0, args, &op, 5, stdin_file, 0);
         c.run->fold_u64((uint64_t)r.exit_code);
+        if (!use_stdio && !with_o) { std::string o2 = discover_output(names_before, out); if (o2 != out) { c.run->probe("dec.output_under_another_name"); out = o2; } }
         bool out_exists = use_stdio ? false : vfs_exists(out);
         Bytes produced = use_stdio ? Bytes(r.out.begin(), r.out.end()) : vfs_get(out, &ex);
         std::string site = std::string("asconcrypt.decrypt") + (use_stdio ? ".stdio" : "");
